@@ -45,6 +45,10 @@ self.__times[bisect_left(.., a) : bisect_left(.., b) + 1]   (times.take (bisectL
 raise ValueError(...)                                  none
 docstrings, comments                                   ignored
 anything else (an extra statement, another order)      TranslationError -> obligation broken
+
+EXTENSIONS further down in this file, each with its own closed table: gen_pi_records (record-level reader / writer of
+pi.Timeseries -> Gen/PiRecords.lean), gen_pi_param (pi.ParameterConfig.get / set -> Gen/PiParam.lean), gen_csv_code
+(csv.save / csv.load -> Gen/CsvCode.lean).
 """
 import ast
 import os
@@ -525,3 +529,1494 @@ def gen_pi_axis(c):
             f.write(text)
         os.replace(tmp, path)
     return [("RtcVerif.Gen.PiAxis", "RtcVerif.Gen", thms)] if thms else []
+
+
+# =============================================================================================
+# EXTENSION: record-level logic of the PI reader / writer  ->  lean/RtcVerif/Gen/PiRecords.lean
+#
+# translated (pi.py)                               generated                       proved equal to
+# ---------------------------------------------------------------------------------------------
+# __init__, consistency loop (first pass over      scanDtGen, scanStartGen,        C11.scanStep / C11.scan
+#   the headers): every statement of the body      scanStopGen, scanFcValGen,      (via scanStepWith, Proofs/C11RecRef.lean)
+#                                                  scanFcGen, scanEnsGen,
+#                                                  scanContGen, scanStepGen
+# __init__, "Parse data" loop: every statement     memberGen, virtualGen,          C11.targets, C11.nValues, C11.takePad,
+#   of the body (slot choice, virtual ensemble,    virtTargetsGen, targetsGen,     C11.missMap, C11.padFront / padBack,
+#   count, binary / event values, missVal mask,    nValuesFullGen, rawGen,         C11.readSeries, C11.fill
+#   unit, front / back fillers, references)        missGen, padFrontFullGen,
+#                                                  padBackFullGen, asmGen,
+#                                                  entryGen, readSeriesGen, fillGen
+# __add_header (every statement) and write()       hdrMemberGen, hdrForecastGen,   C11.mkHdr, C11.encXml, C11.evTimesOf,
+#   (header loop, series loop, event loop)         hdrStepFullGen, hdrMissGen,     C11.mkRec, C11.recsFrom, C11.streamFrom
+#                                                  mkHdrGen, encXmlGen, evTimesGen,
+#                                                  keepGen, mkRecGen, recsFromGen,
+#                                                  binValsGen, streamGen, writeGen     C11.write  (whole writer of a new file)
+# __init__ frame (existing file): initial state,   globInitGen, timesEqGen',       C11.read   (whole reader, via readWith)
+#   binary file, time zone, stamps (both kinds),   longestGen, fcGen, fcIdxGen,
+#   forecast flooring + index, trimming            trimGen, readGen
+#
+# Python construct (ElementTree calls are table entries)   ->  model term                  (TRUSTED mapping)
+# ---------------------------------------------------------------------------------------------
+# series.find('pi:header', ns)                                 the record's Hdr `h`
+# self.__data_config.variable(header)                          h.var   (variable key, C11_id_roundtrip)
+# self.__parse_time_step(header.find('pi:timeStep', ns))       h.step
+# self.__parse_date_time(header.find('pi:startDate'|'pi:endDate', ns))     h.start | h.stop
+# el = header.find('pi:forecastDate', ns); el is [not] None; self.__parse_date_time(el)
+#                                                              h.forecast : Option Int; isSome / isNone; its value
+# el = header.find('pi:ensembleMemberIndex', ns); el is [not] None; int(el.text)
+#                                                              h.member : Option Nat; isSome / isNone; its value
+# float(header.find('pi:missVal', ns).text) / header.find('pi:missVal', ns).text      h.miss
+# header.find('pi:units', ns).text                             h.unit
+# X is None (X a state attribute) ... else ...                 match X with | none => … | some x => …
+# a < b, a > b, a != b, a == b                                 the same comparison (`!=` in a conjunction: Bool `!=`)
+# try: S except …: raise                                       S   (the handlers only re-raise)
+# raise Exception(…)                                           none
+# while k >= len(self.__values): self.__values.append({})      — (the model creates the slot list with its final length;
+#   (and __units; and `while self.ensemble_size > len(…)`)       entry checked verbatim)
+# np.fromfile(f, count=n, dtype=self.__pi_dtype)               (st.take n, some (st.drop n))
+# a = np.empty(n, dtype=…); a.fill(np.nan)                     nans n     (raises for n < 0: skeleton)
+# events = series.findall('pi:event', ns); for i in range(K): a[i] = float(events[i].get('value'))
+#                                                              evs.take K ++ (rest of a)
+# min(n, len(events))                                          min n evs.length
+# a[a == miss_val] = np.nan                                    a.map (fun v => if v = miss then nan else v)
+# self.set_unit(variable, unit=u, ensemble_member=m)           unit field of the Entry stored in slot m
+# np.hstack((filler, a)) / np.hstack((a, filler))              nans k ++ a / a ++ nans k
+# int(round(bisect_left(…) - bisect_left(…)))                  the difference (an integer)
+# dt.total_seconds()  (dt = the header's step, after the count succeeded)     h.step.getD 1
+# for i in range(1, self.ensemble_size): self.__values[i][variable] = self.__values[0][variable]; set_unit(…, i)
+#                                                              the same Entry also in slots List.range' 1 (ensSize - 1)
+# header_elements / header_element_texts (parallel lists, insert(k, …) on both)     the Hdr fields by element name
+# el = header.find('pi:X', ns); el.set('date', D.strftime('%Y-%m-%d')); el.set('time', D.strftime('%H:%M:%S'))
+#                                                              field X := D
+# if self.dt: el.set('unit', 'second'); el.set('multiplier', M) else: el.set('unit', 'nonequidistant')
+#                                                              step := match s.dt with | some d => some M | none => none
+# for m in range(len(self.__values)): for v in sorted(self.__values[m].keys()): …    per slot k: (sortSlot sl).map …
+# if m != int(el.text): continue                               a series is written in the pass of its own member
+# if len(values) == 0: self.__xml_root.remove(series); continue      filter (fun e => !(e.vals.length == 0))
+# nans = np.isnan(values); if nans[i]: event.set('value', miss_val) else: event.set('value', str(value))
+#                                                              fun v => if v = nan then miss else v
+# t = start; loop: if self.dt is None: t = self.times[i] … if self.dt: t += self.dt
+#                                                              match s.dt with | some d => gridTimes s.start d n | none => s.times.take n
+# f.write(values.astype(self.__pi_dtype).tobytes())            vals.map r32
+# anything else (extra statement, other attribute, other index)     TranslationError -> obligation broken
+# =============================================================================================
+
+
+def _T(node):
+    return " ".join(ast.unparse(node).split())
+
+
+def _need(cond, msg):
+    if not cond:
+        raise TranslationError(msg)
+
+
+_OPS = {ast.Lt: "<", ast.Gt: ">", ast.LtE: "≤", ast.GtE: "≥", ast.NotEq: "≠", ast.Eq: "="}
+
+
+def _cmp(test, sym, boolean=False):
+    """binary comparison of two symbols -> Lean Prop (or Bool for `!=` / `==` when boolean)"""
+    _need(isinstance(test, ast.Compare) and len(test.ops) == 1, "not a simple comparison: " + _T(test))
+    a, b = _T(test.left), _T(test.comparators[0])
+    _need(a in sym and b in sym, "comparison of unknown operands: " + _T(test))
+    op = type(test.ops[0])
+    _need(op in _OPS, "unsupported comparison: " + _T(test))
+    if boolean:
+        _need(op in (ast.NotEq, ast.Eq), "unsupported comparison in a conjunction: " + _T(test))
+        return "(%s %s %s)" % (sym[a], "!=" if op is ast.NotEq else "==", sym[b])
+    return "%s %s %s" % (sym[a], _OPS[op], sym[b])
+
+
+def _natx(node, sym):
+    t = _T(node)
+    if t in sym:
+        return sym[t]
+    if isinstance(node, ast.Constant) and isinstance(node.value, int) and not isinstance(node.value, bool):
+        return str(node.value)
+    if isinstance(node, ast.BinOp) and isinstance(node.op, (ast.Add, ast.Sub)) and isinstance(node.right, ast.Constant):
+        return "%s %s %s" % (_natx(node.left, sym), "+" if isinstance(node.op, ast.Add) else "-", _natx(node.right, sym))
+    raise TranslationError("unsupported index expression " + t)
+
+
+def _series_loops(init):
+    loops = [n for n in ast.walk(init) if isinstance(n, ast.For) and _T(n.iter) == "self.__xml_root.findall('pi:series', ns)"]
+    loops.sort(key=lambda n: n.lineno)
+    _need(len(loops) == 4, "__init__: %d loops over the series, expected 4 (consistency, nonequidistant stamps, "
+                            "validation, parse data)" % len(loops))
+    return loops
+
+
+def _flatten_try(body):
+    flat = []
+    for s in body:
+        if _is_doc(s):
+            continue
+        if isinstance(s, ast.Try):
+            _need(not s.orelse and not s.finalbody and all(len(h.body) == 1 and isinstance(h.body[0], ast.Raise)
+                                                             for h in s.handlers), "try block with a handler that does not raise")
+            flat.extend(s.body)
+        else:
+            flat.append(s)
+    return flat
+
+
+def _assign1(st):
+    """`NAME = value` / `self.__x = value` -> (target text, value node) or None"""
+    if isinstance(st, ast.Assign) and len(st.targets) == 1:
+        return _T(st.targets[0]), st.value
+    return None
+
+
+def _is_raise_block(b):
+    return len(b) == 1 and isinstance(b[0], ast.Raise)
+
+
+class _Once(dict):
+    def put(self, k, v):
+        _need(k not in self, "statement for `%s` occurs twice" % k)
+        self[k] = v
+
+
+def translate_scan():
+    init = _find_method(_tree(), "Timeseries", "__init__")
+    body = _flatten_try(_series_loops(init)[0].body)
+    H = None
+    nm = {}      # role -> local name
+    cur_el = None
+    elname = {}  # local name -> "fc" | "ens"
+    out = _Once()
+    for st in body:
+        a = _assign1(st)
+        if a and isinstance(st.targets[0], ast.Name):
+            t, v = a
+            vt = _T(v)
+            if vt == "series.find('pi:header', ns)":
+                H = t
+                continue
+            _need(H is not None, "scan loop: statement before the header is read: " + _T(st)[:80])
+            if vt == "self.__data_config.variable(%s)" % H:
+                continue
+            if vt == "self.__parse_time_step(%s.find('pi:timeStep', ns))" % H:
+                nm["dt"] = t
+                continue
+            if vt == "self.__parse_date_time(%s.find('pi:startDate', ns))" % H:
+                nm["start"] = t
+                continue
+            if vt == "self.__parse_date_time(%s.find('pi:endDate', ns))" % H:
+                nm["end"] = t
+                continue
+            if vt == "%s.find('pi:forecastDate', ns)" % H:
+                elname[t] = "fc"
+                continue
+            if vt == "%s.find('pi:ensembleMemberIndex', ns)" % H:
+                elname[t] = "ens"
+                continue
+            raise TranslationError("scan loop: unsupported assignment " + _T(st)[:100])
+        _need(isinstance(st, ast.If), "scan loop: unsupported statement " + _T(st)[:100])
+        test = _T(st.test)
+        if test == "self.__dt is None":
+            _need(len(st.body) == 1 and _T(st.body[0]) == "self.__dt = %s" % nm.get("dt"), "scan: dt branch")
+            _need(len(st.orelse) == 1 and isinstance(st.orelse[0], ast.If) and not st.orelse[0].orelse
+                  and _is_raise_block(st.orelse[0].body), "scan: dt else-branch is not `if …: raise`")
+            c = _cmp(st.orelse[0].test, {nm["dt"]: "hstep", "self.__dt": "some d"})
+            out.put("scanDt", "match gdt with\n  | none => some hstep\n  | some d => if %s then none else some (some d)" % c)
+        elif test in ("self.__start_datetime is None", "self.__end_datetime is None"):
+            which = "start" if "start" in test else "end"
+            attr = "self.__%s_datetime" % which
+            loc = nm.get(which)
+            _need(len(st.body) == 1 and _T(st.body[0]) == "%s = %s" % (attr, loc), "scan: %s branch" % which)
+            _need(len(st.orelse) == 1 and isinstance(st.orelse[0], ast.If) and not st.orelse[0].orelse
+                  and len(st.orelse[0].body) == 1 and _T(st.orelse[0].body[0]) == "%s = %s" % (attr, loc),
+                  "scan: %s else-branch is not `if …: %s = %s`" % (which, attr, loc))
+            c = _cmp(st.orelse[0].test, {loc: "hs", attr: "x"})
+            out.put("scanStart" if which == "start" else "scanStop",
+                    "match gs with\n  | none => hs\n  | some x => if %s then hs else x" % c)
+        elif test == "self.__forecast_datetime is None":
+            F = nm.get("fc")
+            _need(F and len(st.body) == 1 and _T(st.body[0]) == "self.__forecast_datetime = %s" % F, "scan: forecast branch")
+            _need(len(st.orelse) == 1 and isinstance(st.orelse[0], ast.If) and not st.orelse[0].orelse
+                  and _is_raise_block(st.orelse[0].body), "scan: forecast else-branch is not `if …: raise`")
+            tt = st.orelse[0].test
+            _need(isinstance(tt, ast.BoolOp) and isinstance(tt.op, ast.And) and len(tt.values) == 2, "scan: forecast guard")
+            parts = []
+            for v in tt.values:
+                if _T(v) == "%s is not None" % nm.get("fc_el"):
+                    parts.append("h.forecast.isSome")
+                else:
+                    parts.append(_cmp(v, {F: "scanFcValGen h", "self.__forecast_datetime": "x"}, boolean=True))
+            _need("h.forecast.isSome" in parts and len(parts) == 2 and parts[0] != parts[1], "scan: forecast guard parts")
+            out.put("scanFc", "match gf with\n  | none => some (scanFcValGen h)\n  | some x => if %s then none else some x"
+                    % " && ".join(parts))
+        elif test == "self.__contains_ensemble is False":
+            C = nm.get("cont")
+            _need(C and len(st.body) == 1 and not st.orelse and _T(st.body[0]) == "self.__contains_ensemble = %s" % C,
+                  "scan: contains_ensemble update")
+            out.put("scanCont", "if gc = false then %s else gc" % nm["cont_term"])
+        elif isinstance(st.test, ast.Compare) and _T(st.test).endswith(" is not None") and _T(st.test.left) in elname:
+            el = _T(st.test.left)
+            if elname[el] == "fc":
+                a1 = _assign1(st.body[0]) if len(st.body) == 1 else None
+                a2 = _assign1(st.orelse[0]) if len(st.orelse) == 1 else None
+                _need(a1 and a2 and a1[0] == a2[0] and _T(a1[1]) == "self.__parse_date_time(%s)" % el
+                      and _T(a2[1]) == nm.get("start"), "scan: forecast value is not (forecastDate | start date)")
+                nm["fc"], nm["fc_el"] = a1[0], el
+                out.put("scanFcVal", "match h.forecast with\n  | some f => f\n  | none => h.start")
+            else:
+                _need(len(st.body) == 2 and len(st.orelse) == 1, "scan: ensemble block shape")
+                a1, a2 = _assign1(st.body[0]), _assign1(st.orelse[0])
+                _need(a1 and a2 and a1[0] == a2[0] and _T(a1[1]) == "True" and _T(a2[1]) == "False",
+                      "scan: contains_ensemble flag is not True / False")
+                nm["cont"], nm["cont_term"] = a1[0], "h.member.isSome"
+                g = st.body[1]
+                _need(isinstance(g, ast.If) and not g.orelse and len(g.body) == 1, "scan: ensemble size update shape")
+                sym = {"int(%s.text)" % el: "k", "self.__ensemble_size": "size"}
+                _need(isinstance(g.test, ast.Compare) and len(g.test.ops) == 1 and type(g.test.ops[0]) in _OPS,
+                      "scan: ensemble size test")
+                c = "%s %s %s" % (_natx(g.test.left, sym), _OPS[type(g.test.ops[0])], _natx(g.test.comparators[0], sym))
+                a3 = _assign1(g.body[0])
+                _need(a3 and a3[0] == "self.__ensemble_size", "scan: ensemble size assignment")
+                out.put("scanEns", "match h.member with\n  | some k => if %s then %s else size\n  | none => size"
+                        % (c, _natx(a3[1], sym)))
+        else:
+            raise TranslationError("scan loop: unsupported if-statement " + test[:100])
+    for k in ("scanDt", "scanStart", "scanStop", "scanFcVal", "scanFc", "scanEns", "scanCont"):
+        _need(k in out, "scan loop: no statement for " + k)
+    return dict(out)
+
+
+def _ix2(node, sym):
+    """ix plus `int(round(<difference of two bisects>))` (an integer already)"""
+    if isinstance(node, ast.Call) and _T(node.func) == "int" and len(node.args) == 1:
+        a = node.args[0]
+        if isinstance(a, ast.Call) and _T(a.func) == "round" and len(a.args) == 1 and isinstance(a.args[0], ast.BinOp) \
+                and isinstance(a.args[0].op, ast.Sub) and "bisect.bisect_left" in _T(a.args[0].left) \
+                and "bisect.bisect_left" in _T(a.args[0].right):
+            return ix(a.args[0], sym)
+    return ix(node, sym)
+
+
+def _empty_nan(stmts, cur, n):
+    """[cur = np.empty(n, dtype=…), cur.fill(np.nan)]"""
+    _need(len(stmts) >= 2 and _T(stmts[0]) == "%s = np.empty(%s, dtype=self.__internal_dtype)" % (cur, n)
+          and _T(stmts[1]) == "%s.fill(np.nan)" % cur, "not `a = np.empty(%s); a.fill(nan)`: %s" % (n, _T(stmts[0])[:100]))
+
+
+def translate_series():
+    init = _find_method(_tree(), "Timeseries", "__init__")
+    body = [s for s in _series_loops(init)[3].body if not _is_doc(s)]
+    out = _Once()
+    nm = {}
+    pos = {}
+    H = None
+    asm = "v"
+    for idx, st in enumerate(body):
+        txt = _T(st)
+        a = _assign1(st)
+        cur = "self.__values[%s][%s]" % (nm.get("member"), nm.get("var"))
+        if a and isinstance(st.targets[0], ast.Name):
+            t, v = a
+            vt = _T(v)
+            if vt == "series.find('pi:header', ns)":
+                H = t
+            elif vt == "self.__data_config.variable(%s)" % H:
+                nm["var"] = t
+            elif vt == "self.__parse_time_step(%s.find('pi:timeStep', ns))" % H:
+                nm["dt"] = t
+            elif vt == "self.__parse_date_time(%s.find('pi:startDate', ns))" % H:
+                nm["start"] = t
+            elif vt == "self.__parse_date_time(%s.find('pi:endDate', ns))" % H:
+                nm["end"] = t
+            elif vt == "False" and "virt" not in nm:
+                nm["virt"] = t
+            elif vt == "%s.find('pi:ensembleMemberIndex', ns)" % H:
+                nm["el"] = t
+            elif vt == "float(%s.find('pi:missVal', ns).text)" % H:
+                nm["miss"] = t
+            elif vt == "%s.find('pi:units', ns).text" % H:
+                nm["unit"] = t
+            else:
+                raise TranslationError("parse loop: unsupported assignment " + txt[:100])
+            continue
+        if a and a[0] == "%s[%s == %s]" % (cur, cur, nm.get("miss")) or a and a[0] == "%s[%s == %s]" % (cur, nm.get("miss"), cur):
+            _need(_T(a[1]) == "np.nan", "parse loop: missing values are not set to NaN")
+            out.put("miss", "if v = miss then XVal.nan else v")
+            pos["miss"] = idx
+            continue
+        if isinstance(st, ast.Expr) and txt == "self.set_unit(%s, unit=%s, ensemble_member=%s)" % (
+                nm.get("var"), nm.get("unit"), nm.get("member")):
+            out.put("entry", "⟨h.var, h.unit, vals⟩")
+            continue
+        _need(isinstance(st, ast.If), "parse loop: unsupported statement " + txt[:100])
+        test = _T(st.test)
+        el = nm.get("el")
+        if test == "%s is not None" % el:
+            _need(len(st.body) == 3 and len(st.orelse) == 1, "parse loop: member block shape")
+            a1, a2 = _assign1(st.body[0]), _assign1(st.orelse[0])
+            _need(a1 and a2 and a1[0] == a2[0], "parse loop: member index is not assigned in both branches")
+            M = a1[0]
+            nm["member"] = M
+            for w, lst in zip(st.body[1:], ("self.__values", "self.__units")):
+                _need(_T(w) == "while %s >= len(%s): %s.append({})" % (M, lst, lst), "parse loop: slot list growth: " + _T(w)[:90])
+            out.put("member", "match h.member with\n  | some k => %s\n  | none => %s" % (
+                _natx(a1[1], {"int(%s.text)" % el: "k"}), _natx(a2[1], {})))
+        elif isinstance(st.test, ast.BoolOp) and isinstance(st.test.op, ast.And) and len(st.test.values) == 2 \
+                and any(_T(v) == "%s is None" % el for v in st.test.values):
+            parts = []
+            for v in st.test.values:
+                tv = _T(v)
+                if tv == "%s is None" % el:
+                    parts.append("h.member.isNone")
+                elif tv in ("self.contains_ensemble is True", "self.contains_ensemble", "self.__contains_ensemble is True",
+                            "self.__contains_ensemble"):
+                    parts.append("g.containsEns")
+                else:
+                    raise TranslationError("parse loop: virtual ensemble guard: " + tv)
+            _need(sorted(parts) == ["g.containsEns", "h.member.isNone"], "parse loop: virtual ensemble guard")
+            _need(len(st.body) == 3 and not st.orelse, "parse loop: virtual ensemble block shape")
+            for w, lst in zip(st.body[:2], ("self.__values", "self.__units")):
+                _need(_T(w) == "while self.ensemble_size > len(%s): %s.append({})" % (lst, lst),
+                      "parse loop: slot list growth: " + _T(w)[:90])
+            _need(_T(st.body[2]) == "%s = True" % nm.get("virt"), "parse loop: virtual ensemble flag")
+            out.put("virtual", "if %s then true else false" % " && ".join(parts))
+        elif test == "self.__dt" and len(st.body) == 1 and _assign1(st.body[0]) and isinstance(st.body[0].targets[0], ast.Name):
+            _need(len(st.orelse) == 1, "parse loop: count has no nonequidistant branch")
+            a1, a2 = _assign1(st.body[0]), _assign1(st.orelse[0])
+            _need(a2 and a1[0] == a2[0], "parse loop: count branches assign different names")
+            nm["n"] = a1[0]
+            eq = ix(a1[1], {nm["end"]: "h.stop", nm["start"]: "h.start", nm["dt"]: "d"})
+            neq = ix(a2[1], {nm["end"]: "h.stop", nm["start"]: "h.start", "self.__times": "times"}).replace(
+                "bisectLeft times", "bisectLeft g.times")
+            out.put("nValues", "match g.dt with\n  | some _ =>\n    match h.step with\n    | none => none\n"
+                    "    | some d => if d = 0 then none else some (%s)\n  | none => some (%s)" % (eq, neq))
+        elif test == "self.__binary":
+            N = nm.get("n")
+            _need(len(st.body) == 1 and isinstance(st.body[0], ast.If) and _T(st.body[0].test) == "f is not None",
+                  "parse loop: binary branch is not `if f is not None`")
+            b = st.body[0]
+            _need(len(b.body) == 1 and _T(b.body[0]) == "%s = np.fromfile(f, count=%s, dtype=self.__pi_dtype)" % (cur, N),
+                  "parse loop: binary values are not np.fromfile(f, count=%s, dtype=self.__pi_dtype)" % N)
+            _need(len(b.orelse) == 2, "parse loop: placeholder branch shape")
+            _empty_nan(b.orelse, cur, N)
+            o = st.orelse
+            _need(len(o) == 4 and _assign1(o[0]) and _T(o[0].value) == "series.findall('pi:event', ns)",
+                  "parse loop: XML branch shape")
+            ev = _assign1(o[0])[0]
+            _empty_nan(o[1:3], cur, N)
+            lp = o[3]
+            _need(isinstance(lp, ast.For) and isinstance(lp.target, ast.Name) and not lp.orelse and len(lp.body) == 1
+                  and isinstance(lp.iter, ast.Call) and _T(lp.iter.func) == "range" and len(lp.iter.args) == 1,
+                  "parse loop: event loop shape")
+            i = lp.target.id
+            k = lp.iter.args[0]
+            _need(isinstance(k, ast.Call) and _T(k.func) == "min" and sorted(_T(x) for x in k.args) == sorted(
+                [N, "len(%s)" % ev]), "parse loop: event loop bound is not min(%s, len(%s)): %s" % (N, ev, _T(k)))
+            _need(_T(lp.body[0]) == "%s[%s] = float(%s[%s].get('value'))" % (cur, i, ev, i),
+                  "parse loop: event value assignment: " + _T(lp.body[0])[:100])
+            K = "min %s %s" % tuple("n" if _T(x) == N else "evs.length" for x in k.args)
+            out.put("raw", "if binary then\n    match stream with\n    | some st => (st.take n, some (st.drop n))\n"
+                    "    | none => (nans n, none)\n  else (evs.take (%s) ++ nans (n - %s), stream)" % (K, _p(K)))
+            pos["raw"] = idx
+        elif isinstance(st.test, ast.Compare) and sorted([_T(st.test.left), _T(st.test.comparators[0])]) in (
+                sorted([nm.get("start"), "self.__start_datetime"]), sorted([nm.get("end"), "self.__end_datetime"])):
+            front = nm.get("start") in (_T(st.test.left), _T(st.test.comparators[0]))
+            loc, glob = (nm["start"], "self.__start_datetime") if front else (nm["end"], "self.__end_datetime")
+            c = _cmp(st.test, {loc: "h.start" if front else "h.stop", glob: "g.start" if front else "g.stop"})
+            _need(len(st.body) == 3 and isinstance(st.body[0], ast.If) and _T(st.body[0].test) == "self.__dt"
+                  and len(st.body[0].body) == 1 and len(st.body[0].orelse) == 1, "parse loop: filler block shape")
+            terms = []
+            fname = None
+            for br in (st.body[0].body[0], st.body[0].orelse[0]):
+                a1 = _assign1(br)
+                _need(a1 and isinstance(a1[1], ast.Call) and _T(a1[1].func) == "np.empty" and len(a1[1].args) == 1
+                      and [k.arg for k in a1[1].keywords] == ["dtype"], "parse loop: filler is not np.empty(k, dtype=…)")
+                _need(fname in (None, a1[0]), "parse loop: two filler names")
+                fname = a1[0]
+                sym = {loc: "h.start" if front else "h.stop", glob: "g.start" if front else "g.stop",
+                       nm["dt"]: "(h.step.getD 1)", "self.__times": "times"}
+                terms.append(_ix2(a1[1].args[0], sym).replace("bisectLeft times", "bisectLeft g.times"))
+            _need(_T(st.body[1]) == "%s.fill(np.nan)" % fname, "parse loop: filler is not filled with NaN")
+            want = "%s = np.hstack((%s, %s))" % ((cur, fname, cur) if front else (cur, cur, fname))
+            _need(_T(st.body[2]) == want, "parse loop: filler stacked at the wrong end: " + _T(st.body[2])[:100])
+            out.put("padFront" if front else "padBack",
+                    "if %s then\n    match g.dt with\n    | some _ => %s\n    | none => %s\n  else 0" % (c, terms[0], terms[1]))
+            asm = ("nans pf ++ %s" % _p(asm)) if front else ("%s ++ nans pb" % _p(asm))
+            pos["padFront" if front else "padBack"] = idx
+        elif test == nm.get("virt"):
+            _need(len(st.body) == 1 and isinstance(st.body[0], ast.For) and not st.orelse, "parse loop: virtual block shape")
+            lp = st.body[0]
+            _need(isinstance(lp.target, ast.Name) and _T(lp.iter) == "range(1, self.ensemble_size)" and len(lp.body) == 2,
+                  "parse loop: virtual members are not range(1, self.ensemble_size): " + _T(lp.iter))
+            i = lp.target.id
+            V, U = nm.get("var"), nm.get("unit")
+            got = sorted(_T(x) for x in lp.body)
+            src = None
+            for x in lp.body:
+                a1 = _assign1(x)
+                if a1 and a1[0] == "self.__values[%s][%s]" % (i, V):
+                    _need(isinstance(a1[1], ast.Subscript) and isinstance(a1[1].value, ast.Subscript)
+                          and _T(a1[1].value.value) == "self.__values" and _T(a1[1].slice) == V,
+                          "parse loop: virtual member does not reference the stored array: " + _T(x))
+                    src = _natx(a1[1].value.slice, {})
+            _need(src is not None and "self.set_unit(%s, unit=%s, ensemble_member=%s)" % (V, U, i) in got,
+                  "parse loop: virtual member body: " + "; ".join(got)[:140])
+            out.put("virtTargets", "List.range' 1 (g.ensSize - 1)")
+            out.put("virtSrc", src)
+            pos["virt"] = idx
+        else:
+            raise TranslationError("parse loop: unsupported if-statement " + test[:100])
+    for k in ("member", "virtual", "nValues", "raw", "miss", "entry", "padFront", "padBack", "virtTargets", "virtSrc"):
+        _need(k in out, "parse loop: no statement for " + k)
+    _need(pos["raw"] < pos["miss"], "parse loop: the missing-value mask precedes the reading of the values")
+    _need(max(pos["raw"], pos["miss"], pos["padFront"], pos["padBack"]) < pos["virt"],
+          "parse loop: virtual ensemble references are made before the array is complete")
+    out["asm"] = asm
+    return dict(out)
+
+
+_HDR_BOILER = {
+    "now = datetime.datetime.now()",
+    "series = ET.Element('{%s}' % (ns['pi'],) + 'series')",
+    "header = ET.SubElement(series, '{%s}' % (ns['pi'],) + 'header')",
+    "self.__xml_root.append(series)",
+}
+
+
+def translate_writer():
+    tree = _tree()
+    hd = _find_method(tree, "Timeseries", "__add_header")
+    args = [a.arg for a in hd.args.args]
+    _need(args == ["self", "variable", "location_parameter_id", "ensemble_member", "miss_val", "unit"], "__add_header signature")
+    out = _Once()
+    names = texts = None
+    cur = None
+    dates = {}
+    for st in [s for s in hd.body if not _is_doc(s)]:
+        txt = _T(st)
+        a = _assign1(st)
+        if txt in _HDR_BOILER:
+            continue
+        if a and a[0] == "header_elements" and isinstance(a[1], ast.List):
+            names = [e.value for e in a[1].elts]
+            continue
+        if a and a[0] == "header_element_texts" and isinstance(a[1], ast.List):
+            texts = [_T(e) for e in a[1].elts]
+            continue
+        if a and a[0] == "el" and txt.startswith("el = header.find('pi:") and txt.endswith("', ns)"):
+            cur = txt[len("el = header.find('pi:"):-len("', ns)")]
+            continue
+        if isinstance(st, ast.Expr) and txt.startswith("el.set('date', ") and txt.endswith(".strftime('%Y-%m-%d'))"):
+            dates.setdefault(cur, {})["date"] = txt[len("el.set('date', "):-len(".strftime('%Y-%m-%d'))")]
+            continue
+        if isinstance(st, ast.Expr) and txt.startswith("el.set('time', ") and txt.endswith(".strftime('%H:%M:%S'))"):
+            dates.setdefault(cur, {})["time"] = txt[len("el.set('time', "):-len(".strftime('%H:%M:%S'))")]
+            continue
+        if isinstance(st, ast.For) and _T(st.iter) == "range(len(header_elements))":
+            _need([_T(x) for x in st.body] == [
+                "el = ET.SubElement(header, '{%s}' % (ns['pi'],) + header_elements[i])", "el.text = header_element_texts[i]"],
+                "__add_header: element loop")
+            continue
+        _need(isinstance(st, ast.If), "__add_header: unsupported statement " + txt[:100])
+        test = _T(st.test)
+        if isinstance(st.test, ast.Compare) and sorted([_T(st.test.left), _T(st.test.comparators[0])]) == [
+                "self.__forecast_datetime", "self.__start_datetime"]:
+            c = _cmp(st.test, {"self.__forecast_datetime": "s.forecast", "self.__start_datetime": "s.start"})
+            bt = [_T(x) for x in st.body]
+            if bt[0].startswith("header_elements.insert") or bt[0].startswith("header_element_texts.insert"):
+                _need(sorted(bt) == ["header_element_texts.insert(6, '')", "header_elements.insert(6, 'forecastDate')"]
+                      and not st.orelse, "__add_header: forecastDate element insertion")
+                out.put("fcPresent", c)
+            else:
+                _need(bt == ["el = header.find('pi:forecastDate', ns)",
+                             "el.set('date', self.__forecast_datetime.strftime('%Y-%m-%d'))",
+                             "el.set('time', self.__forecast_datetime.strftime('%H:%M:%S'))"] and not st.orelse,
+                      "__add_header: forecastDate value")
+                out.put("fcValue", c)
+        elif test == "self.contains_ensemble":
+            _need(sorted(_T(x) for x in st.body) == ["header_element_texts.insert(3, str(ensemble_member))",
+                                                     "header_elements.insert(3, 'ensembleMemberIndex')"] and not st.orelse,
+                  "__add_header: ensembleMemberIndex insertion")
+            out.put("hdrMember", "if s.containsEns then some m else none")
+        elif test == "len(location_parameter_id.qualifier_id) > 0":
+            _need([_T(x) for x in st.body] == ["i = 0", "for qualifier_id in location_parameter_id.qualifier_id: "
+                  "header_elements.insert(3, 'qualifierId') header_element_texts.insert(3 + i, qualifier_id) i += 1"],
+                  "__add_header: qualifier block")
+        elif test == "self.dt":
+            _need(cur == "timeStep", "__add_header: time step set on element " + str(cur))
+            _need([_T(x) for x in st.body] == ["el.set('unit', 'second')",
+                                               "el.set('multiplier', str(int(self.dt.total_seconds())))"]
+                  and [_T(x) for x in st.orelse] == ["el.set('unit', 'nonequidistant')"], "__add_header: time step branch")
+            out.put("hdrStep", "match s.dt with\n  | some d => some d\n  | none => none")
+        else:
+            raise TranslationError("__add_header: unsupported if-statement " + test[:100])
+    _need(names and texts and len(names) == len(texts), "__add_header: element lists")
+    tab = dict(zip(names, texts))
+    _need(tab.get("missVal") == "str(miss_val)" and tab.get("units") == "unit" and tab.get("timeStep") == "''"
+          and tab.get("startDate") == "''" and tab.get("endDate") == "''", "__add_header: element texts: " + str(tab)[:200])
+    _need(dates.get("startDate") == {"date": "self.__start_datetime", "time": "self.__start_datetime"}
+          and dates.get("endDate") == {"date": "self.__end_datetime", "time": "self.__end_datetime"},
+          "__add_header: start / end date attributes: " + str(dates))
+    _need(set(dates) == {"startDate", "endDate"}, "__add_header: date attributes set on " + str(sorted(dates)))
+    for k in ("fcPresent", "fcValue", "hdrMember", "hdrStep"):
+        _need(k in out, "__add_header: no statement for " + k)
+    _need(out["fcPresent"] == out["fcValue"], "__add_header: forecastDate element and value under different conditions")
+    out["hdrForecast"] = "if %s then some s.forecast else none" % out["fcPresent"]
+
+    # ---- write()
+    wr = _find_method(tree, "Timeseries", "write")
+    top = [s for s in wr.body if not _is_doc(s)]
+    new = [s for s in top if isinstance(s, ast.If) and _T(s.test) == "self.make_new_file"]
+    _need(len(new) == 1 and len(new[0].body) == 2 and _T(new[0].body[0]) == "self.__reset_xml_tree()",
+          "write: new-file block is not (reset tree; header loop)")
+    l1 = new[0].body[1]
+    _need(isinstance(l1, ast.For) and _T(l1.iter) == "range(len(self.__values))" and len(l1.body) == 1
+          and isinstance(l1.body[0], ast.For), "write: header loop over members")
+    m = l1.target.id
+    l2 = l1.body[0]
+    _need(_T(l2.iter) == "sorted(self.__values[%s].keys())" % m, "write: header loop is not over sorted(self.__values[m].keys())")
+    v = l2.target.id
+    b = [_T(x) for x in l2.body]
+    _need(len(b) == 3 and b[0].endswith("= self.__data_config.pi_variable_ids(%s)" % v)
+          and b[1].endswith("= self.get_unit(%s, %s)" % (v, m)), "write: header loop body: " + "; ".join(b)[:160])
+    ids, un = b[0].split(" = ")[0], b[1].split(" = ")[0]
+    call = l2.body[2].value if isinstance(l2.body[2], ast.Expr) else None
+    _need(isinstance(call, ast.Call) and _T(call.func) == "self.__add_header" and [_T(x) for x in call.args] == [v, ids]
+          and sorted((k.arg, _T(k.value)) for k in call.keywords) == sorted(
+              [("ensemble_member", m), ("miss_val", "-999"), ("unit", un)]), "write: __add_header call: " + b[2][:140])
+    out["hdrMiss"] = "XVal.fin (-999)"
+
+    # series loop
+    ml = [s for s in top if isinstance(s, ast.For) and _T(s.iter) == "range(len(self.__values))"]
+    _need(len(ml) == 1 and len(ml[0].body) == 2, "write: value loop over members")
+    M = ml[0].target.id
+    sl = ml[0].body[1]
+    _need(isinstance(sl, ast.For) and _T(sl.iter) == "self.__xml_root.findall('pi:series', ns)", "write: series loop")
+    cur = None
+    dates = {}
+    seen = _Once()
+    for st in [s for s in sl.body if not _is_doc(s)]:
+        txt = _T(st)
+        if txt == "header = series.find('pi:header', ns)":
+            continue
+        if txt.startswith("el = header.find('pi:") and txt.endswith("', ns)"):
+            cur = txt[len("el = header.find('pi:"):-len("', ns)")]
+            continue
+        if txt.startswith("el.set('date', ") and txt.endswith(".strftime('%Y-%m-%d'))"):
+            dates.setdefault(cur, {})["date"] = txt[len("el.set('date', "):-len(".strftime('%Y-%m-%d'))")]
+            continue
+        if txt.startswith("el.set('time', ") and txt.endswith(".strftime('%H:%M:%S'))"):
+            dates.setdefault(cur, {})["time"] = txt[len("el.set('time', "):-len(".strftime('%H:%M:%S'))")]
+            continue
+        if txt == "variable = self.__data_config.variable(header)":
+            continue
+        if txt == "miss_val = header.find('pi:missVal', ns).text":
+            seen.put("miss", 1)
+            continue
+        if txt == "values = self.__values[%s][variable]" % M:
+            seen.put("values", 1)
+            continue
+        if txt == "el.text = self.get_unit(variable, %s)" % M:
+            _need(cur == "units", "write: unit written to element " + str(cur))
+            seen.put("unit", 1)
+            continue
+        if txt == "nans = np.isnan(values)":
+            seen.put("nans", 1)
+            continue
+        _need(isinstance(st, ast.If), "write: unsupported statement in the series loop: " + txt[:100])
+        test = _T(st.test)
+        if test == "el is not None":
+            _need(cur == "ensembleMemberIndex" and not st.orelse and len(st.body) == 1 and isinstance(st.body[0], ast.If)
+                  and _T(st.body[0].test) in ("%s != int(el.text)" % M, "int(el.text) != %s" % M)
+                  and [_T(x) for x in st.body[0].body] == ["continue"] and not st.body[0].orelse, "write: member filter")
+            seen.put("filter", 1)
+        elif test == "len(values) == 0":
+            _need([_T(x) for x in st.body] == ["self.__xml_root.remove(series)", "continue"] and not st.orelse,
+                  "write: empty series are not removed")
+            out["keep"] = "!(e.vals.length == 0)"
+        elif test == "self.__binary":
+            _need([_T(x) for x in st.body] == ["f.write(values.astype(self.__pi_dtype).tobytes())"], "write: binary values")
+            out["binVals"] = "e.vals.map r32"
+            o = st.orelse
+            _need(len(o) == 4 and _T(o[0]) == "events = series.findall('pi:event', ns)" and _T(o[1]) == "t = self.__start_datetime"
+                  and isinstance(o[2], ast.For) and _T(o[2].target) == "(i, value)" and _T(o[2].iter) == "enumerate(values)",
+                  "write: event loop head")
+            _need(_T(o[3]) == "if len(events) > len(values): for i in range(len(values), len(events)): series.remove(events[i])",
+                  "write: superfluous events: " + _T(o[3])[:120])
+            eb = [_T(x) for x in o[2].body]
+            want = ["if self.dt is None: t = self.times[i]",
+                    "if i < len(events): event = events[i] else: event = ET.Element('pi:event') series.append(event)",
+                    "event.set('date', t.strftime('%Y-%m-%d'))", "event.set('time', t.strftime('%H:%M:%S'))",
+                    None, "if self.dt: t += self.dt"]
+            _need(len(eb) == 6 and all(w is None or w == g for w, g in zip(want, eb)), "write: event loop body: " + " | ".join(eb)[:300])
+            vs = o[2].body[4]
+            _need(isinstance(vs, ast.If) and _T(vs.test) == "nans[i]" and [_T(x) for x in vs.body] == ["event.set('value', miss_val)"]
+                  and [_T(x) for x in vs.orelse] == ["event.set('value', str(value))"], "write: event value: " + eb[4][:120])
+            out["encXml"] = "if v = XVal.nan then miss else v"
+            out["evTimes"] = "match s.dt with\n  | some d => gridTimes s.start d n\n  | none => s.times.take n"
+        else:
+            raise TranslationError("write: unsupported if-statement in the series loop: " + test[:100])
+    for k in ("miss", "values", "unit", "nans", "filter"):
+        _need(k in seen, "write: no statement for " + k)
+    for k in ("keep", "binVals", "encXml", "evTimes"):
+        _need(k in out, "write: no statement for " + k)
+    _need(dates == {"startDate": {"date": "self.__start_datetime", "time": "self.__start_datetime"},
+                    "endDate": {"date": "self.__end_datetime", "time": "self.__end_datetime"}},
+          "write: start / end date refresh: " + str(dates))
+    return dict(out)
+
+
+# ---- the frame of __init__ (existing file): everything around the two loops
+#
+# Python construct                                            ->  model term               (TRUSTED mapping)
+# self.__dt = None … self.__ensemble_size = 1 (7 assignments)     the initial Glob
+# f = None; if self.__binary: try: f = io.open(self.binary_path, 'rb') except IOError: pass      stream := f.bin (none = no file)
+# timezone = root.find('pi:timeZone'); float(timezone.text) | None                                 f.tz
+# if self.__dt: …  else: …   (self.__dt a timedelta or None)      match dt with | some d => … | none => …   (d > 0: model)
+# [self.__start_datetime + i * self.__dt for i in range(t_len)]   (List.range t_len.toNat).map (fun i => start + i * d)
+# self.__times = []; for series …: events = series.findall('pi:event', ns);
+#   if len(events) > len(self.__times): self.__times = [parse(e) for e in events]       fold keeping the longer event-stamp list
+# if pi_validate_times: …  (raises only, default False)            ignored
+# self.__floor_date_time(dt=X, tdel=self.__dt)                    C11.floorDT start d X   (the method itself: Gen/PiAxis)
+# try: i = self.__times.index(X) except ValueError: i = -1         if X ∈ ts then ts.idxOf X else -1
+# self.__values = [{}] / self.__units = [{}]                       slot list (model: final length, see the while-loops)
+# if f is not None and self.__binary: f.close()                    —
+
+
+def translate_frame():
+    init = _find_method(_tree(), "Timeseries", "__init__")
+    blocks = [s for s in init.body if isinstance(s, ast.If) and _T(s.test) == "not self.make_new_file"]
+    _need(len(blocks) == 1, "__init__: not exactly one `if not self.make_new_file:` block")
+    _need(sum(1 for s in init.body if _T(s) in ("self.__values = [{}]", "self.__units = [{}]")) == 2,
+          "__init__: initial slot lists are not [{}]")
+    loops = _series_loops(init)
+    out = _Once()
+    glob = {}
+    pos = {}
+    GL = {"self.__dt": "dt", "self.__start_datetime": "start", "self.__end_datetime": "stop",
+          "self.__forecast_datetime": "forecast", "self.__contains_ensemble": "containsEns",
+          "self.__ensemble_size": "ensSize", "self.__forecast_index": None}
+    for idx, st in enumerate(s for s in blocks[0].body if not _is_doc(s)):
+        txt = _T(st)
+        a = _assign1(st)
+        if txt == "f = None" or txt == "timezone = self.__xml_root.find('pi:timeZone', ns)":
+            continue
+        if a and a[0] in GL and "scan" not in pos:
+            v = {"None": "none", "False": "false", "True": "true"}.get(_T(a[1]), _T(a[1]))
+            _need(a[0] not in glob, "__init__: %s initialised twice" % a[0])
+            glob[a[0]] = v
+            continue
+        if st is loops[0]:
+            pos["scan"] = idx
+            continue
+        if st is loops[3]:
+            pos["parse"] = idx
+            continue
+        _need(isinstance(st, ast.If), "__init__: unsupported statement " + txt[:100])
+        test = _T(st.test)
+        if test == "self.__binary":
+            _need(txt == "if self.__binary: try: f = io.open(self.binary_path, 'rb') except IOError: pass", "__init__: binary file opening")
+        elif test == "timezone is not None":
+            _need([_T(x) for x in st.body] == ["self.__timezone = float(timezone.text)"]
+                  and [_T(x) for x in st.orelse] == ["self.__timezone = None"], "__init__: time zone")
+            out.put("tz", "f.tz")
+        elif test == "self.__dt":
+            _need(len(st.body) == 2 and len(st.orelse) == 2, "__init__: stamps block shape")
+            a1 = _assign1(st.body[0])
+            _need(a1 and isinstance(st.body[0].targets[0], ast.Name), "__init__: t_len")
+            tl = ix(a1[1], {"self.__end_datetime": "stop", "self.__start_datetime": "start", "self.__dt": "d"})
+            a2 = _assign1(st.body[1])
+            lc = a2[1] if a2 and a2[0] == "self.__times" else None
+            _need(isinstance(lc, ast.ListComp) and len(lc.generators) == 1 and not lc.generators[0].ifs
+                  and _T(lc.generators[0].iter) == "range(%s)" % a1[0] and isinstance(lc.generators[0].target, ast.Name),
+                  "__init__: equidistant stamps are not a comprehension over range(%s)" % a1[0])
+            i = lc.generators[0].target.id
+            _need(_T(lc.elt) in ("self.__start_datetime + %s * self.__dt" % i, "self.__start_datetime + self.__dt * %s" % i),
+                  "__init__: equidistant stamp is not start + i * dt: " + _T(lc.elt))
+            out.put("timesEq", "(List.range (%s).toNat).map (fun (i : Nat) => start + (i : Int) * d)" % tl)
+            o = st.orelse
+            _need(_T(o[0]) == "self.__times = []" and o[1] is loops[1] and len(o[1].body) == 2
+                  and _T(o[1].body[0]) == "events = series.findall('pi:event', ns)" and isinstance(o[1].body[1], ast.If)
+                  and not o[1].body[1].orelse
+                  and [_T(x) for x in o[1].body[1].body] == ["self.__times = [self.__parse_date_time(e) for e in events]"],
+                  "__init__: nonequidistant stamps loop")
+            out.put("longer", _cmp(o[1].body[1].test, {"len(events)": "r.evTimes.length", "len(self.__times)": "cur.length"}))
+            pos["times"] = idx
+        elif test == "pi_validate_times":
+            _need(not any(isinstance(n, (ast.Assign, ast.AugAssign)) and any(isinstance(t, (ast.Attribute, ast.Subscript))
+                  for t in (n.targets if isinstance(n, ast.Assign) else [n.target])) for n in ast.walk(st)),
+                  "__init__: the validation block changes the object")
+        elif test == "self.__forecast_datetime is not None":
+            _need(len(st.body) == 2 and not st.orelse, "__init__: forecast block shape")
+            _need(_T(st.body[0]) == "if self.__dt: self.__forecast_datetime = self.__floor_date_time(dt=self.__forecast_datetime, "
+                  "tdel=self.__dt)", "__init__: forecast flooring: " + _T(st.body[0])[:140])
+            out.put("fcF", "match dt with\n  | some d => C11.floorDT start d x\n  | none => x")
+            tr = st.body[1]
+            _need(isinstance(tr, ast.Try) and [_T(x) for x in tr.body] == [
+                "self.__forecast_index = self.__times.index(self.__forecast_datetime)"] and len(tr.handlers) == 1
+                and _T(tr.handlers[0].type) == "ValueError" and len(tr.handlers[0].body) == 1
+                and not tr.orelse and not tr.finalbody, "__init__: forecast index")
+            a3 = _assign1(tr.handlers[0].body[0])
+            _need(a3 and a3[0] == "self.__forecast_index", "__init__: forecast index fallback")
+            neg = isinstance(a3[1], ast.UnaryOp) and isinstance(a3[1].op, ast.USub)
+            fallback = ("-" if neg else "") + ix(a3[1].operand if neg else a3[1], {})
+            out.put("fcIdx", "if x ∈ ts then (ts.idxOf x : Int) else %s" % fallback)
+            pos["fc"] = idx
+        elif test == "not self.__dt":
+            want = ("self.__times = self.__times[bisect.bisect_left(self.__times, self.__start_datetime):"
+                    "bisect.bisect_left(self.__times, self.__end_datetime) + 1]")
+            _need(len(st.body) == 1 and not st.orelse and "".join(_T(st.body[0]).split()) == "".join(want.split()),
+                  "__init__: trimming of the nonequidistant stamps")
+            out.put("trim", "(ts.take (bisectLeft ts stop + 1)).drop (bisectLeft ts start)")
+            pos["trim"] = idx
+        elif test == "f is not None and self.__binary":
+            _need([_T(x) for x in st.body] == ["f.close()"], "__init__: closing the binary file")
+        else:
+            raise TranslationError("__init__: unsupported if-statement " + test[:100])
+    _need(set(glob) == set(GL), "__init__: initial state assigns " + str(sorted(glob)))
+    _need(glob["self.__forecast_index"] == "none", "__init__: forecast index not initialised with None")
+    out["init"] = "{ " + ", ".join("%s := %s" % (GL[k], glob[k]) for k in GL if GL[k]) + " }"
+    for k in ("tz", "timesEq", "longer", "fcF", "fcIdx", "trim"):
+        _need(k in out, "__init__: no statement for " + k)
+    _need(pos.get("scan", 99) < pos["times"] < pos["fc"] < pos.get("parse", -1) < pos["trim"],
+          "__init__: order of (consistency loop, stamps, forecast, parse loop, trimming): " + str(pos))
+    return dict(out)
+
+
+REC_FRAME = """
+def globInitGen : Glob := %(init)s
+def timesEqGen' (start d stop : Int) : List Int := %(timesEq)s
+def longestGen : List Int → List Rec → List Int
+  | cur, [] => cur
+  | cur, r :: rs => longestGen (if %(longer)s then r.evTimes else cur) rs
+def fcGen (dt : Option Int) (start x : Int) : Int :=
+  %(fcF)s
+def fcIdxGen (x : Int) (ts : List Int) : Int := %(fcIdx)s
+def trimGen (ts : List Int) (start stop : Int) : List Int := %(trim)s
+
+/-- `pi.Timeseries.__init__` on an existing file: all pieces in the skeleton of Proofs/C11RecRef -/
+def readGen (binary : Bool) (f : File) : Option Store :=
+  C11.readWith globInitGen scanStepGen timesEqGen' (longestGen []) fcGen fcIdxGen trimGen fillGen binary f
+
+theorem longestGen_eq_model (cur : List Int) (rs : List Rec) : longestGen cur rs = C11.longestTimes cur rs := by
+  induction rs generalizing cur with
+  | nil => rfl
+  | cons r rs ih =>
+    unfold longestGen C11.longestTimes
+    exact ih _
+
+/-- **the whole reader**: the translated `__init__` is the model function `read` of `C11_pi_roundtrip` -/
+theorem readGen_eq_model (binary : Bool) (f : File) : readGen binary f = C11.read binary f := by
+  unfold readGen
+  exact C11.readWith_eq globInitGen scanStepGen timesEqGen' (longestGen []) fcGen fcIdxGen trimGen fillGen
+    rfl scanStepGen_eq_model (fun s d e => rfl) (fun rs => longestGen_eq_model [] rs)
+    (fun dt s x => rfl) (fun x ts => rfl) (fun ts s e => rfl)
+    (fun g b rs st sl hp => fillGen_eq_model g hp b rs st sl) binary f
+"""
+
+
+REC_HEAD = """import RtcVerif.Model.C11
+import RtcVerif.Proofs.C11RecRef
+/-!
+GENERATED on every run of the C11 check by harness/translate_c11.py (gen_pi_records) from
+src/rtctools/data/pi.py of the tree under check.  Do not edit.  Record-level logic of the PI
+reader (both passes over the series) and of the writer, read through the construct table in the
+translator; the theorems tie it to the model functions of `C11_pi_roundtrip` / `C11_padding_correct_end`.
+-/
+set_option linter.unusedVariables false
+set_option linter.unusedSimpArgs false
+namespace RtcVerif.Gen
+open RtcVerif RtcVerif.C11
+"""
+
+REC_SCAN = """
+def scanDtGen (gdt hstep : Option Int) : Option (Option Int) :=
+  %(scanDt)s
+def scanStartGen (gs : Option Int) (hs : Int) : Int :=
+  %(scanStart)s
+def scanStopGen (gs : Option Int) (hs : Int) : Int :=
+  %(scanStop)s
+def scanFcValGen (h : Hdr) : Int :=
+  %(scanFcVal)s
+def scanFcGen (gf : Option Int) (h : Hdr) : Option Int :=
+  %(scanFc)s
+def scanEnsGen (size : Nat) (h : Hdr) : Nat :=
+  %(scanEns)s
+def scanContGen (gc : Bool) (h : Hdr) : Bool :=
+  %(scanCont)s
+
+/-- one iteration of the consistency loop: the pieces above in the skeleton of Proofs/C11RecRef -/
+def scanStepGen (g : Glob) (h : Hdr) : Option Glob :=
+  C11.scanStepWith scanDtGen scanStartGen scanStopGen scanFcGen scanEnsGen scanContGen g h
+
+theorem scanStepGen_eq_model (g : Glob) (h : Hdr) : scanStepGen g h = C11.scanStep g h := by
+  have h1 : scanDtGen = C11.scanDtRef := by
+    funext gdt hstep
+    unfold scanDtGen C11.scanDtRef
+    cases gdt with
+    | none => rfl
+    | some d =>
+      by_cases hh : hstep = some d
+      · subst hh; simp
+      · have hh' : ¬ some d = hstep := fun e => hh e.symm
+        simp [hh, hh']
+  have h2 : scanStartGen = C11.scanStartRef := by
+    funext gs hs
+    cases gs <;> rfl
+  have h3 : scanStopGen = C11.scanStopRef := by
+    funext gs hs
+    cases gs <;> rfl
+  have h4 : scanFcGen = C11.scanFcRef := by
+    funext gf h
+    unfold scanFcGen C11.scanFcRef scanFcValGen
+    cases gf <;> cases h.forecast <;> simp [Bool.and_comm, bne_comm]
+  have h5 : scanEnsGen = C11.scanEnsRef := by
+    funext size h
+    unfold scanEnsGen C11.scanEnsRef
+    cases h.member <;> rfl
+  have h6 : scanContGen = C11.scanContRef := by
+    funext gc h
+    unfold scanContGen C11.scanContRef
+    cases gc <;> simp
+  unfold scanStepGen
+  rw [h1, h2, h3, h4, h5, h6]
+  exact C11.scanStepRef_eq g h
+
+/-- the whole first pass -/
+theorem scanGen_eq_model (g : Glob) (hs : List Hdr) : C11.scanWith scanStepGen g hs = C11.scan g hs :=
+  C11.scanWith_eq scanStepGen scanStepGen_eq_model g hs
+"""
+
+REC_SERIES = """
+def memberGen (h : Hdr) : Nat :=
+  %(member)s
+def virtualGen (g : Geo) (h : Hdr) : Bool :=
+  %(virtual)s
+def virtTargetsGen (g : Geo) : List Nat := %(virtTargets)s
+def virtSrcGen : Nat := %(virtSrc)s
+/-- slots a series is stored in: its own, then the virtual-ensemble references -/
+def targetsGen (g : Geo) (h : Hdr) : List Nat :=
+  memberGen h :: (if virtualGen g h then virtTargetsGen g else [])
+def nValuesFullGen (g : Geo) (h : Hdr) : Option Int :=
+  %(nValues)s
+def rawGen (binary : Bool) (n : Nat) (evs : List XVal) (stream : Option (List XVal)) :
+    List XVal × Option (List XVal) :=
+  %(raw)s
+def missGen (miss v : XVal) : XVal := %(miss)s
+def padFrontFullGen (g : Geo) (h : Hdr) : Int :=
+  %(padFront)s
+def padBackFullGen (g : Geo) (h : Hdr) : Int :=
+  %(padBack)s
+def asmGen (pf pb : Nat) (v : List XVal) : List XVal := %(asm)s
+def entryGen (h : Hdr) (vals : List XVal) : Entry := %(entry)s
+
+def readSeriesGen (g : Geo) (binary : Bool) (r : Rec) (stream : Option (List XVal)) :
+    Option (List XVal × Option (List XVal)) :=
+  C11.readSeriesWith nValuesFullGen rawGen missGen padFrontFullGen padBackFullGen asmGen g binary r stream
+
+def fillGen (g : Geo) (binary : Bool) (rs : List Rec) (stream : Option (List XVal)) (slots : List Slot) :
+    Option (List Slot) :=
+  C11.fillWith readSeriesGen targetsGen entryGen g binary rs stream slots
+
+/-- the array referenced by the virtual members is the one the series itself was stored in -/
+theorem virtSrcGen_is_member (g : Geo) (h : Hdr) (hv : virtualGen g h = true) : memberGen h = virtSrcGen := by
+  unfold virtualGen at hv
+  unfold memberGen virtSrcGen
+  cases hm : h.member with
+  | none => rfl
+  | some k => simp [hm] at hv
+
+theorem targetsGen_eq_model (g : Geo) (h : Hdr) (hp : 0 < g.ensSize) : targetsGen g h = C11.targets g h := by
+  unfold targetsGen C11.targets memberGen virtualGen virtTargetsGen
+  cases hm : h.member with
+  | some k => simp
+  | none =>
+    cases hc : g.containsEns with
+    | false => simp
+    | true =>
+      simp only [Option.isNone_none, Bool.and_self, if_true]
+      exact C11.zero_cons_range' g.ensSize hp
+
+theorem nValuesFullGen_eq_model (g : Geo) (h : Hdr) : nValuesFullGen g h = C11.nValues g h := by
+  unfold nValuesFullGen C11.nValues
+  cases g.dt with
+  | none => first | rfl | (simp only [Option.some.injEq]; omega)
+  | some d0 =>
+    cases h.step with
+    | none => rfl
+    | some d => rfl
+
+theorem rawGen_eq_model : rawGen = C11.rawRef := by
+  funext binary n evs stream
+  unfold rawGen C11.rawRef
+  cases binary with
+  | true => rfl
+  | false =>
+    simp only [Bool.false_eq_true, if_false]
+    first
+      | rw [C11.take_min_pad]
+      | (rw [Nat.min_comm, C11.take_min_pad])
+
+theorem missGen_eq_model : missGen = C11.missMap := by
+  funext miss v
+  unfold missGen C11.missMap
+  first | rfl | (by_cases hh : v = miss <;> simp [hh, eq_comm])
+
+theorem padFrontFullGen_eq_model (g : Geo) (h : Hdr) : padFrontFullGen g h = C11.padFront g h := by
+  unfold padFrontFullGen C11.padFront
+  cases g.dt <;> rfl
+
+theorem padBackFullGen_eq_model (g : Geo) (h : Hdr) : padBackFullGen g h = C11.padBack g h := by
+  unfold padBackFullGen C11.padBack
+  cases g.dt <;> rfl
+
+theorem asmGen_eq_model : asmGen = C11.asmRef := by
+  funext pf pb v
+  unfold asmGen C11.asmRef
+  first | rfl | simp [List.append_assoc]
+
+theorem readSeriesGen_eq_model (g : Geo) (binary : Bool) (r : Rec) (stream : Option (List XVal)) :
+    readSeriesGen g binary r stream = C11.readSeries g binary r stream := by
+  have h1 : nValuesFullGen = C11.nValues := by funext g h; exact nValuesFullGen_eq_model g h
+  have h2 : padFrontFullGen = C11.padFront := by funext g h; exact padFrontFullGen_eq_model g h
+  have h3 : padBackFullGen = C11.padBack := by funext g h; exact padBackFullGen_eq_model g h
+  unfold readSeriesGen
+  rw [h1, h2, h3, rawGen_eq_model, missGen_eq_model, asmGen_eq_model]
+  exact C11.readSeriesRef_eq g binary r stream
+
+/-- the whole second pass (every series: values, padding, slot assignment, units) -/
+theorem fillGen_eq_model (g : Geo) (hp : 0 < g.ensSize) (binary : Bool) (rs : List Rec)
+    (stream : Option (List XVal)) (slots : List Slot) :
+    fillGen g binary rs stream slots = C11.fill g binary rs stream slots := by
+  unfold fillGen
+  exact C11.fillWith_eq readSeriesGen targetsGen entryGen g binary
+    (fun r st => readSeriesGen_eq_model g binary r st) (fun h => targetsGen_eq_model g h hp)
+    (fun h v => rfl) rs stream slots
+
+example : targetsGen ⟨some 3600, 0, 7200, [], true, 3⟩ ⟨0, none, some 3600, 0, 3600, none, XVal.fin (-999), "m"⟩ = [0, 1, 2] := by
+  decide
+"""
+
+REC_WRITER = """
+def hdrMemberGen (s : Store) (m : Nat) : Option Nat := %(hdrMember)s
+def hdrForecastGen (s : Store) : Option Int := %(hdrForecast)s
+def hdrStepFullGen (s : Store) : Option Int :=
+  %(hdrStep)s
+def hdrMissGen : XVal := %(hdrMiss)s
+def mkHdrGen (s : Store) (m : Nat) (e : Entry) : Hdr :=
+  { var := e.var, member := hdrMemberGen s m, step := hdrStepFullGen s, start := s.start, stop := s.stop,
+    forecast := hdrForecastGen s, miss := hdrMissGen, unit := e.unit }
+def encXmlGen (miss v : XVal) : XVal := %(encXml)s
+def evTimesGen (s : Store) (n : Nat) : List Int :=
+  %(evTimes)s
+def keepGen (e : Entry) : Bool := %(keep)s
+def binValsGen (r32 : XVal → XVal) (e : Entry) : List XVal := %(binVals)s
+def mkRecGen (s : Store) (binary : Bool) (m : Nat) (e : Entry) : Rec :=
+  { hdr := mkHdrGen s m e
+    evTimes := if binary then [] else evTimesGen s e.vals.length
+    evs := if binary then [] else e.vals.map (encXmlGen (mkHdrGen s m e).miss) }
+def recsFromGen (s : Store) (binary : Bool) (k : Nat) (slots : List Slot) : List Rec :=
+  C11.recsFromWith (mkRecGen s binary) keepGen k slots
+
+theorem mkHdrGen_eq_model (s : Store) (m : Nat) (e : Entry) : mkHdrGen s m e = C11.mkHdr s m e := by
+  unfold mkHdrGen C11.mkHdr hdrMemberGen hdrForecastGen hdrStepFullGen hdrMissGen C11.newMiss
+  have h1 : (match s.dt with | some d => some d | none => none) = s.dt := by cases s.dt <;> rfl
+  by_cases hf : s.forecast = s.start <;> simp [hf, h1]
+
+theorem encXmlGen_eq_model (v : XVal) : encXmlGen hdrMissGen v = C11.encXml v := by
+  unfold encXmlGen C11.encXml hdrMissGen C11.newMiss
+  first | rfl | (by_cases hh : v = XVal.nan <;> simp [hh, eq_comm])
+
+theorem mkRecGen_eq_model (s : Store) (binary : Bool) (m : Nat) (e : Entry) :
+    mkRecGen s binary m e = C11.mkRec s binary m e := by
+  have hm : (mkHdrGen s m e).miss = hdrMissGen := rfl
+  have he : encXmlGen hdrMissGen = C11.encXml := funext encXmlGen_eq_model
+  have ht : evTimesGen s e.vals.length = C11.evTimesOf s e.vals.length := by
+    unfold evTimesGen C11.evTimesOf
+    cases s.dt <;> rfl
+  unfold mkRecGen C11.mkRec
+  rw [hm, he, ht, mkHdrGen_eq_model]
+
+/-- all series records of a new file: one per (member, sorted variable) with values -/
+theorem recsFromGen_eq_model (s : Store) (binary : Bool) (k : Nat) (slots : List Slot) :
+    recsFromGen s binary k slots = C11.recsFrom s binary k slots := by
+  unfold recsFromGen
+  exact C11.recsFromWith_eq s binary (mkRecGen s binary) keepGen (mkRecGen_eq_model s binary)
+    (fun e => by unfold keepGen; cases e.vals <;> rfl) k slots
+
+def streamGen (r32 : XVal → XVal) (slots : List Slot) : List XVal :=
+  C11.streamFromWith keepGen (binValsGen r32) slots
+
+/-- binary stream: every value of every kept series (member by member, sorted variables), converted -/
+theorem streamGen_eq_model (r32 : XVal → XVal) (slots : List Slot) :
+    streamGen r32 slots = C11.streamFrom r32 slots := by
+  unfold streamGen
+  exact C11.streamFromWith_eq r32 keepGen (binValsGen r32)
+    (fun e => by unfold keepGen; cases e.vals <;> rfl) (fun e => rfl) slots
+
+def writeGen (r32 : XVal → XVal) (binary : Bool) (s : Store) : Option File :=
+  C11.writeWith recsFromGen streamGen r32 binary s
+
+/-- **the whole writer of a new file**: the translated header / series / event loops are the model
+    function `write` of `C11_pi_roundtrip` -/
+theorem writeGen_eq_model (r32 : XVal → XVal) (binary : Bool) (s : Store) :
+    writeGen r32 binary s = C11.write r32 binary s := by
+  unfold writeGen
+  exact C11.writeWith_eq recsFromGen streamGen (fun s b k sl => recsFromGen_eq_model s b k sl)
+    streamGen_eq_model r32 binary s
+"""
+
+
+def gen_pi_records(c):
+    """(re)generate lean/RtcVerif/Gen/PiRecords.lean; returns the extra obligation spec for c.prove"""
+    gdir = os.path.join(LEAN_DIR, "RtcVerif", "Gen")
+    os.makedirs(gdir, exist_ok=True)
+    path = os.path.join(gdir, "PiRecords.lean")
+    text, thms, done = REC_HEAD, [], []
+    for what, fn, tmpl, names in (
+            ("Timeseries.__init__ consistency loop", translate_scan, REC_SCAN, ["scanStepGen_eq_model", "scanGen_eq_model"]),
+            ("Timeseries.__init__ parse-data loop", translate_series, REC_SERIES,
+             ["virtSrcGen_is_member", "targetsGen_eq_model", "nValuesFullGen_eq_model", "rawGen_eq_model",
+              "missGen_eq_model", "padFrontFullGen_eq_model", "padBackFullGen_eq_model", "asmGen_eq_model",
+              "readSeriesGen_eq_model", "fillGen_eq_model"]),
+            ("Timeseries.__add_header / write", translate_writer, REC_WRITER,
+             ["mkHdrGen_eq_model", "encXmlGen_eq_model", "mkRecGen_eq_model", "recsFromGen_eq_model",
+              "streamGen_eq_model", "writeGen_eq_model"])):
+        try:
+            r = fn()
+        except TranslationError as e:
+            c.broken.append(("translator: " + what, str(e)))
+            continue
+        except Exception as e:
+            c.broken.append(("translator: " + what, "%s: %s" % (type(e).__name__, e)))
+            continue
+        text += tmpl % r
+        thms.extend(names)
+        done.append(what)
+    if len(done) >= 2 and done[0].endswith("consistency loop") and done[1].endswith("parse-data loop"):
+        # the frame of __init__ uses the generated loops
+        try:
+            text += REC_FRAME % translate_frame()
+            thms.extend(["longestGen_eq_model", "readGen_eq_model"])
+        except TranslationError as e:
+            c.broken.append(("translator: Timeseries.__init__ frame", str(e)))
+        except Exception as e:
+            c.broken.append(("translator: Timeseries.__init__ frame", "%s: %s" % (type(e).__name__, e)))
+    text += "\nend RtcVerif.Gen\n"
+    old = open(path).read() if os.path.exists(path) else None
+    if old != text:
+        tmp = path + ".tmp%d" % os.getpid()
+        with open(tmp, "w") as f:
+            f.write(text)
+        os.replace(tmp, path)
+    return [("RtcVerif.Gen.PiRecords", "RtcVerif.Gen", thms)] if thms else []
+
+
+# =============================================================================================
+# EXTENSION: src/rtctools/data/csv.py  ->  lean/RtcVerif/Gen/CsvCode.lean
+#
+# translated                                       generated            proved equal to
+# ---------------------------------------------------------------------------------------------
+# save: the fmt list (both branches), the          fmtGen               C11.fmtList      (C11_csv_fmt)
+#   savetxt call (delimiter, header, fmt)
+# load: the converter table c (with_time, the      convTableGen,        C11.convTable, C11.fillKeys
+#   delimiter == ';' block, decimal-comma test),   fillKeysGen            (C11_csv_converters)
+#   filling_values of the genfromtxt call
+# _string_to_float                                 strToFloatGen        C11.strToFloat   (C11_csv_cell_roundtrip)
+#
+# Python construct                                      ->  model term                       (TRUSTED mapping)
+# ---------------------------------------------------------------------------------------------
+# ['%s'] / ['%f']                                           [Fmt.s] / [Fmt.f]
+# k * [x], [x] * k ; a + b (lists)                          List.replicate k x ; a ++ b
+# len(data.dtype.names)                                     ncols
+# data['time'] = [t.strftime('%Y-%m-%d %H:%M:%S') for t in data['time']]     time cells (Cell.time)
+# np.savetxt(fname, data, delimiter=delimiter, header=delimiter.join(data.dtype.names), fmt=fmt, comments='')
+#                                                           header = the names, every cell through its column's format
+# c = {} ; c.update({k: f}) / c.update({k(i): f for i in range(n)})   (fresh keys)      [] ; c ++ [(k, f)] / c ++ (List.range n).map …
+# _string_to_datetime / _string_to_float  (as converter)   Conv.time / Conv.flt
+# len(c)                                                    c.length
+# 1 + n - len(c) inside range(…)                            Nat subtraction (range of a negative number is empty)
+# delimiter == ';'                                          semicolon
+# csvfile.readline().count(b';')                            nSemi  (separators in the header line)
+# csvfile.read(1024).count(b',')                            nComma ; `if nComma:` ↦ nComma ≠ 0
+# {k: np.nan for k, v in c.items() if v is _string_to_float} or None          (c.filter (·.2 == Conv.flt)).map (·.1)
+# np.genfromtxt(fname, delimiter=delimiter, deletechars='', dtype=None, names=True[, converters=c, filling_values=…])
+#                                                           trusted reader applying the table; `return _boolean_to_nan(data, fname)`
+# string.replace(',', '.') ; float(string)                  Cell.num x _ ↦ x   (bytes are decoded first)
+# logging, error messages, re-raise as ValueError           ignored / none
+# anything else                                             TranslationError -> obligation broken
+# =============================================================================================
+
+
+def _csv_tree():
+    return ast.parse(open(os.path.join(REPO, "src", "rtctools", "data", "csv.py")).read())
+
+
+def _func(tree, name):
+    for n in tree.body:
+        if isinstance(n, ast.FunctionDef) and n.name == name:
+            return n
+    raise TranslationError("csv.%s not found" % name)
+
+
+def _natsum(node, sym):
+    t = _T(node)
+    if t in sym:
+        return sym[t]
+    if isinstance(node, ast.Constant) and isinstance(node.value, int) and not isinstance(node.value, bool):
+        return str(node.value)
+    if isinstance(node, ast.BinOp) and isinstance(node.op, (ast.Add, ast.Sub)):
+        return "%s %s %s" % (_natsum(node.left, sym), "+" if isinstance(node.op, ast.Add) else "-", _p(_natsum(node.right, sym)))
+    raise TranslationError("unsupported count expression " + t)
+
+
+def _fmtx(node):
+    if isinstance(node, ast.List) and len(node.elts) == 1 and isinstance(node.elts[0], ast.Constant) \
+            and node.elts[0].value in ("%s", "%f"):
+        return "[Fmt.%s]" % node.elts[0].value[1]
+    if isinstance(node, ast.BinOp) and isinstance(node.op, ast.Add):
+        return "%s ++ %s" % (_fmtx(node.left), _fmtx(node.right))
+    if isinstance(node, ast.BinOp) and isinstance(node.op, ast.Mult):
+        l, k = (node.left, node.right) if isinstance(node.left, ast.List) else (node.right, node.left)
+        one = _fmtx(l)
+        return "List.replicate %s %s" % (_p(_natsum(k, {"len(data.dtype.names)": "ncols"})), one[1:-1])
+    raise TranslationError("unsupported format list " + _T(node))
+
+
+def translate_csv():
+    tree = _csv_tree()
+    out = {}
+    # ---- save
+    sv = _func(tree, "save")
+    _need([a.arg for a in sv.args.args] == ["fname", "data", "delimiter", "with_time"], "save signature")
+    body = [s for s in sv.body if not _is_doc(s)]
+    _need(len(body) == 2 and isinstance(body[0], ast.If) and _T(body[0].test) == "with_time", "save: not (if with_time; savetxt)")
+    tb = body[0].body
+    _need(len(tb) == 2 and _T(tb[0]) == "data['time'] = [t.strftime('%Y-%m-%d %H:%M:%S') for t in data['time']]",
+          "save: time column formatting: " + _T(tb[0])[:120])
+    a1 = _assign1(tb[1])
+    a2 = _assign1(body[0].orelse[0]) if len(body[0].orelse) == 1 else None
+    _need(a1 and a2 and a1[0] == a2[0], "save: format list not assigned in both branches")
+    out["fmt"] = "if withTime then %s else %s" % (_fmtx(a1[1]), _fmtx(a2[1]))
+    call = body[1].value if isinstance(body[1], ast.Expr) else None
+    _need(isinstance(call, ast.Call) and _T(call.func) == "np.savetxt" and [_T(x) for x in call.args] == ["fname", "data"]
+          and sorted((k.arg, _T(k.value)) for k in call.keywords) == sorted(
+              [("delimiter", "delimiter"), ("header", "delimiter.join(data.dtype.names)"), ("fmt", a1[0]), ("comments", "''")]),
+          "save: savetxt call: " + _T(body[1])[:200])
+    # ---- _string_to_float
+    sf = _func(tree, "_string_to_float")
+    sb = [_T(s) for s in sf.body if not _is_doc(s)]
+    arg = sf.args.args[0].arg
+    _need(sb == ["if isinstance(%s, bytes): %s = %s.decode('utf-8')" % (arg, arg, arg), "%s = %s.replace(',', '.')" % (arg, arg),
+                 "return float(%s)" % arg], "_string_to_float body: " + " | ".join(sb)[:200])
+    out["strToFloat"] = "match c with\n  | .num x _ => some x\n  | _ => none"
+    # ---- load
+    ld = _func(tree, "load")
+    _need([a.arg for a in ld.args.args] == ["fname", "delimiter", "with_time"], "load signature")
+    body = [s for s in ld.body if not _is_doc(s)]
+    steps = []
+    cname = None
+    tr = None
+    for st in body:
+        a = _assign1(st)
+        if a and _T(a[1]) == "{}" and cname is None:
+            cname = a[0]
+            continue
+        if isinstance(st, ast.If) and _T(st.test) == "with_time":
+            _need(cname and [_T(x) for x in st.body] == ["%s.update({0: _string_to_datetime})" % cname] and not st.orelse,
+                  "load: with_time block")
+            steps.append(("withTime", "c ++ [(0, Conv.time)]"))
+            continue
+        if isinstance(st, ast.If) and _T(st.test) in ("delimiter == ';'", "';' == delimiter"):
+            _need(len(st.body) == 1 and isinstance(st.body[0], ast.With) and not st.orelse, "load: semicolon block")
+            w = st.body[0]
+            _need(_T(w.items[0].context_expr) == "open(fname, 'rb')" and w.items[0].optional_vars is not None, "load: open")
+            fh = _T(w.items[0].optional_vars)
+            sym = {}
+            last = None
+            inner = None
+            for x in w.body:
+                ax = _assign1(x)
+                if ax and _T(ax[1]) == "%s.readline()" % fh:
+                    last = (ax[0], "line")
+                elif ax and _T(ax[1]) == "%s.read(1024)" % fh:
+                    _need(last and last[1] == "line", "load: the sample is read before the header line")
+                    last = (ax[0], "sample")
+                elif ax and last and _T(ax[1]) == "%s.count(b';')" % last[0] and last[1] == "line":
+                    sym[ax[0]] = "nSemi"
+                elif ax and last and _T(ax[1]) == "%s.count(b',')" % last[0] and last[1] == "sample":
+                    sym[ax[0]] = "nComma"
+                elif isinstance(x, ast.If):
+                    inner = x
+                else:
+                    raise TranslationError("load: unsupported statement in the semicolon block: " + _T(x)[:100])
+            _need(inner is not None and sym.get(_T(inner.test)) == "nComma" and not inner.orelse and len(inner.body) == 1,
+                  "load: decimal-comma test")
+            up = inner.body[0].value if isinstance(inner.body[0], ast.Expr) else None
+            _need(isinstance(up, ast.Call) and _T(up.func) == "%s.update" % cname and len(up.args) == 1
+                  and isinstance(up.args[0], ast.DictComp), "load: converter update is not c.update({… for …})")
+            dc = up.args[0]
+            g = dc.generators[0]
+            _need(len(dc.generators) == 1 and not g.ifs and isinstance(g.target, ast.Name) and isinstance(g.iter, ast.Call)
+                  and _T(g.iter.func) == "range" and len(g.iter.args) == 1 and _T(dc.value) == "_string_to_float",
+                  "load: converter comprehension")
+            sym2 = dict(sym)
+            sym2["len(%s)" % cname] = "c.length"
+            sym2[g.target.id] = "i"
+            steps.append(("semicolon", "if nComma ≠ 0 then c ++ (List.range (%s)).map (fun i => (%s, Conv.flt)) else c" % (
+                _natsum(g.iter.args[0], sym2), _natsum(dc.key, sym2))))
+            continue
+        if isinstance(st, ast.Try):
+            tr = st
+            continue
+        raise TranslationError("load: unsupported statement " + _T(st)[:100])
+    _need(cname and tr is not None and [k for k, _ in steps] == ["withTime", "semicolon"], "load: converter table steps " + str(steps)[:100])
+    _need(len(tr.body) == 1 and isinstance(tr.body[0], ast.If) and _T(tr.body[0].test) == "len(%s)" % cname, "load: `if len(c)`")
+    br = tr.body[0]
+    _need(len(br.body) == 1 and isinstance(br.body[0], ast.Try) and len(br.body[0].body) == 2, "load: converter branch")
+    g1 = br.body[0].body[0]
+    want = [("delimiter", "delimiter"), ("deletechars", "''"), ("dtype", "None"), ("names", "True"), ("converters", cname),
+            ("filling_values", "{k: np.nan for k, v in %s.items() if v is _string_to_float} or None" % cname)]
+    _need(isinstance(g1, ast.Assign) and isinstance(g1.value, ast.Call) and _T(g1.value.func) == "np.genfromtxt"
+          and [_T(x) for x in g1.value.args] == ["fname"]
+          and sorted((k.arg, _T(k.value)) for k in g1.value.keywords) == sorted(want),
+          "load: genfromtxt call with converters: " + _T(g1)[:300])
+    d = _T(g1.targets[0])
+    _need(_T(br.body[0].body[1]) == "return _boolean_to_nan(%s, fname)" % d, "load: result does not go through _boolean_to_nan")
+    _need(len(br.orelse) == 2 and _T(br.orelse[0]) == "%s = np.genfromtxt(fname, delimiter=delimiter, deletechars='', dtype=None, "
+          "names=True)" % d and _T(br.orelse[1]) == "return _boolean_to_nan(%s, fname)" % d, "load: plain branch")
+    out["convTable"] = ("let c : List (Nat × Conv) := []\n  let c := if withTime then %s else c\n"
+                        "  let c := if semicolon then (%s) else c\n  c" % (steps[0][1], steps[1][1]))
+    out["fillKeys"] = "(c.filter (fun kv => kv.2 == Conv.flt)).map (·.1)"
+    return out
+
+
+CSV_TMPL = """import RtcVerif.Model.C11Csv
+/-!
+GENERATED on every run of the C11 check by harness/translate_c11.py (gen_csv_code) from
+src/rtctools/data/csv.py of the tree under check.  Do not edit.
+-/
+set_option linter.unusedVariables false
+namespace RtcVerif.Gen
+open RtcVerif RtcVerif.C11
+
+def fmtGen (withTime : Bool) (ncols : Nat) : List Fmt := %(fmt)s
+def convTableGen (withTime semicolon : Bool) (nSemi nComma : Nat) : List (Nat × Conv) :=
+  %(convTable)s
+def fillKeysGen (c : List (Nat × Conv)) : List Nat := %(fillKeys)s
+def strToFloatGen (c : Cell) : Option XVal :=
+  %(strToFloat)s
+
+theorem fmtGen_eq_model (withTime : Bool) (ncols : Nat) : fmtGen withTime ncols = C11.fmtList withTime ncols := by
+  unfold fmtGen C11.fmtList
+  cases withTime <;> first | rfl | simp
+
+theorem convTableGen_eq_model (withTime semicolon : Bool) (nSemi nComma : Nat) :
+    convTableGen withTime semicolon nSemi nComma = C11.convTable withTime semicolon nSemi nComma := by
+  unfold convTableGen C11.convTable
+  cases withTime <;> cases semicolon <;> by_cases h : nComma = 0 <;> simp [h, Nat.add_comm]
+
+theorem fillKeysGen_eq_model (c : List (Nat × Conv)) : fillKeysGen c = C11.fillKeys c := rfl
+
+theorem strToFloatGen_eq_model (c : Cell) : strToFloatGen c = C11.strToFloat c := by
+  cases c <;> rfl
+
+end RtcVerif.Gen
+"""
+
+
+def gen_csv_code(c):
+    """(re)generate lean/RtcVerif/Gen/CsvCode.lean; returns the extra obligation spec for c.prove"""
+    gdir = os.path.join(LEAN_DIR, "RtcVerif", "Gen")
+    os.makedirs(gdir, exist_ok=True)
+    path = os.path.join(gdir, "CsvCode.lean")
+    try:
+        r = translate_csv()
+    except TranslationError as e:
+        c.broken.append(("translator: csv.save / csv.load", str(e)))
+        return []
+    except Exception as e:
+        c.broken.append(("translator: csv.save / csv.load", "%s: %s" % (type(e).__name__, e)))
+        return []
+    text = CSV_TMPL % r
+    old = open(path).read() if os.path.exists(path) else None
+    if old != text:
+        tmp = path + ".tmp%d" % os.getpid()
+        with open(tmp, "w") as f:
+            f.write(text)
+        os.replace(tmp, path)
+    return [("RtcVerif.Gen.CsvCode", "RtcVerif.Gen",
+             ["fmtGen_eq_model", "convTableGen_eq_model", "fillKeysGen_eq_model", "strToFloatGen_eq_model"])]
+
+
+# =============================================================================================
+# EXTENSION: pi.ParameterConfig.get / .set  ->  lean/RtcVerif/Gen/PiParam.lean
+#
+# translated                                   generated                      proved equal to
+# ---------------------------------------------------------------------------------------------
+# get: group loop (id selection, location /    passesGetGen, pgetGen          C11.PGroup.passes, C11.pget
+#   model filters, KeyError, parse)
+# set: group loop, the typed store per tag     passesSetGen, coerceGen,       C11.PGroup.passes, C11.coerce, C11.pset
+#                                              psetGen                          (C11_param_roundtrip)
+#
+# Python construct                                            ->  model term               (TRUSTED mapping)
+# ---------------------------------------------------------------------------------------------
+# self.__xml_root.findall("pi:group[@id='{}']".format(group_id), ns)     the groups with g.id == gid, in file order
+# el = group.find('pi:locationId' | 'pi:model', ns); el is not None; el.text     g.loc | g.model : Option Nat; isSome; its value
+# X is not None and el is not None: if X != el.text: continue         skip := match X, field with | some l, some x => l != x | _, _ => false
+# el = group.find("pi:parameter[@id='{}']".format(parameter_id), ns); if el is None: raise KeyError
+#                                                                     findPar p g.pars (none = KeyError)
+# return self.__parse_parameter(el)                                   the typed value of the parameter (PVal)
+# for child in el: if child.tag.endswith('<t>Value'): …               match on the constructor of the stored PVal (first child decides)
+# new_value is True / is False: child.text = 'true' / 'false'; return     .bool true / .bool false ; otherwise raise -> none
+# child.text = str(int(new_value))                                    .int (C11.pyInt a)
+# child.text = str(new_value)   (dblValue)                            C11.strAsDbl a   (what float(text) reads back; str(True) -> none)
+# raise KeyError(…) after the loop                                    none
+# =============================================================================================
+
+
+def _group_loop(fn, what):
+    body = [s for s in fn.body if not _is_doc(s)]
+    _need(len(body) == 3 and _T(body[0]) == "groups = self.__xml_root.findall(\"pi:group[@id='{}']\".format(group_id), ns)"
+          and isinstance(body[1], ast.For) and _T(body[1].iter) == "groups" and _T(body[1].target) == "group"
+          and isinstance(body[2], ast.Raise) and _T(body[2]).startswith("raise KeyError"), what + ": not (groups; for group; raise KeyError)")
+    cur = None
+    skips = {}
+    found = False
+    tail = []
+    for st in body[1].body:
+        txt = _T(st)
+        if txt == "el = group.find('pi:locationId', ns)":
+            cur = "loc"
+        elif txt == "el = group.find('pi:model', ns)":
+            cur = "model"
+        elif txt == "el = group.find(\"pi:parameter[@id='{}']\".format(parameter_id), ns)":
+            cur = "par"
+        elif isinstance(st, ast.If) and isinstance(st.test, ast.BoolOp) and isinstance(st.test.op, ast.And):
+            arg = {"loc": "location_id", "model": "model"}.get(cur)
+            _need(arg and sorted(_T(v) for v in st.test.values) == sorted(["%s is not None" % arg, "el is not None"])
+                  and not st.orelse and len(st.body) == 1 and isinstance(st.body[0], ast.If) and not st.body[0].orelse
+                  and [_T(x) for x in st.body[0].body] == ["continue"], what + ": filter block for " + str(cur))
+            _need(cur not in skips, what + ": two filters for " + cur)
+            skips[cur] = "match %s, g.%s with\n    | some l, some x => %s\n    | _, _ => false" % (
+                cur, cur, _cmp(st.body[0].test, {arg: "l", "el.text": "x"}, boolean=True))
+        elif txt == "if el is None: raise KeyError":
+            _need(cur == "par", what + ": KeyError test on " + str(cur))
+            found = True
+        else:
+            _need(found and set(skips) == {"loc", "model"}, what + ": unsupported statement before the parameter is found: " + txt[:100])
+            tail.append(st)
+    _need(found and set(skips) == {"loc", "model"}, what + ": filters / parameter lookup missing")
+    passes = "(g.id == gid) &&\n  !(%s) &&\n  !(%s)" % (skips["loc"], skips["model"])
+    return passes, tail
+
+
+def translate_param():
+    tree = _tree()
+    out = {}
+    g = _find_method(tree, "ParameterConfig", "get")
+    _need([a.arg for a in g.args.args] == ["self", "group_id", "parameter_id", "location_id", "model"], "ParameterConfig.get signature")
+    out["passesGet"], tail = _group_loop(g, "ParameterConfig.get")
+    _need([_T(x) for x in tail] == ["return self.__parse_parameter(el)"], "ParameterConfig.get: result is not the parsed parameter")
+    s = _find_method(tree, "ParameterConfig", "set")
+    _need([a.arg for a in s.args.args] == ["self", "group_id", "parameter_id", "new_value", "location_id", "model"],
+          "ParameterConfig.set signature")
+    out["passesSet"], tail = _group_loop(s, "ParameterConfig.set")
+    _need(len(tail) == 1 and isinstance(tail[0], ast.For) and _T(tail[0].iter) == "el" and _T(tail[0].target) == "child"
+          and len(tail[0].body) == 1 and isinstance(tail[0].body[0], ast.If), "ParameterConfig.set: child loop")
+    arms = {}
+    node = tail[0].body[0]
+    while True:
+        t = _T(node.test)
+        _need(t.startswith("child.tag.endswith('") and t.endswith("Value')"), "ParameterConfig.set: tag test " + t)
+        tag = t[len("child.tag.endswith('"):-len("Value')")]
+        _need(tag in ("bool", "int", "dbl") and tag not in arms, "ParameterConfig.set: tag " + tag)
+        b = [_T(x) for x in node.body]
+        if b == ["if new_value is True: child.text = 'true' return elif new_value is False: child.text = 'false' return "
+                 "else: raise Exception('Unsupported value for tag {}'.format(child.tag))"]:
+            _need(tag == "bool", "ParameterConfig.set: boolean store under tag " + tag)
+            arms[tag] = "match a with\n    | .bool true => some (.bool true)\n    | .bool false => some (.bool false)\n    | _ => none"
+        elif b == ["child.text = str(int(new_value))", "return"]:
+            arms[tag] = "some (.%s (C11.pyInt a))" % tag
+        elif b == ["child.text = str(new_value)", "return"]:
+            arms[tag] = {"dbl": "C11.strAsDbl a"}.get(tag) or _need(False, "ParameterConfig.set: str(new_value) under tag " + tag)
+        else:
+            raise TranslationError("ParameterConfig.set: unsupported store for %sValue: %s" % (tag, " ; ".join(b)[:160]))
+        if len(node.orelse) == 1 and isinstance(node.orelse[0], ast.If):
+            node = node.orelse[0]
+            continue
+        _need(len(node.orelse) == 1 and isinstance(node.orelse[0], ast.Raise), "ParameterConfig.set: other tags do not raise")
+        break
+    _need(set(arms) == {"bool", "int", "dbl"}, "ParameterConfig.set: tags " + str(sorted(arms)))
+    out["coerce"] = "match old with\n  | .bool _ =>\n    %s\n  | .int _ => %s\n  | .dbl _ => %s\n  | .str _ => none" % (
+        arms["bool"], arms["int"], arms["dbl"])
+    return out
+
+
+PARAM_TMPL = """import RtcVerif.Model.C11
+import RtcVerif.Proofs.C11RecRef
+/-!
+GENERATED on every run of the C11 check by harness/translate_c11.py (gen_pi_param) from
+pi.ParameterConfig.get / .set in src/rtctools/data/pi.py of the tree under check.  Do not edit.
+-/
+set_option linter.unusedVariables false
+set_option linter.unusedSimpArgs false
+namespace RtcVerif.Gen
+open RtcVerif RtcVerif.C11
+
+def passesGetGen (g : PGroup) (gid : Nat) (loc model : Option Nat) : Bool :=
+  %(passesGet)s
+def passesSetGen (g : PGroup) (gid : Nat) (loc model : Option Nat) : Bool :=
+  %(passesSet)s
+def coerceGen (old : PVal) (a : PArg) : Option PVal :=
+  %(coerce)s
+def pgetGen (c : PConf) (gid p : Nat) (loc model : Option Nat) : Option PVal :=
+  C11.pgetWith passesGetGen c gid p loc model
+def psetGen (c : PConf) (gid p : Nat) (a : PArg) (loc model : Option Nat) : Option PConf :=
+  C11.psetWith passesSetGen coerceGen c gid p a loc model
+
+theorem passesGetGen_eq_model (g : PGroup) (gid : Nat) (loc model : Option Nat) :
+    passesGetGen g gid loc model = g.passes gid loc model := by
+  unfold passesGetGen C11.PGroup.passes
+  cases loc <;> cases g.loc <;> cases model <;> cases g.model <;> simp [bne_comm, Bool.and_comm] <;> grind
+
+theorem passesSetGen_eq_model (g : PGroup) (gid : Nat) (loc model : Option Nat) :
+    passesSetGen g gid loc model = g.passes gid loc model := by
+  unfold passesSetGen C11.PGroup.passes
+  cases loc <;> cases g.loc <;> cases model <;> cases g.model <;> simp [bne_comm, Bool.and_comm] <;> grind
+
+theorem coerceGen_eq_model (old : PVal) (a : PArg) : coerceGen old a = C11.coerce old a := by
+  cases old <;> cases a <;> first | rfl | (rename_i b; cases b <;> rfl) | (rename_i _ b; cases b <;> rfl)
+
+theorem pgetGen_eq_model (c : PConf) (gid p : Nat) (loc model : Option Nat) :
+    pgetGen c gid p loc model = C11.pget c gid p loc model :=
+  C11.pgetWith_eq passesGetGen passesGetGen_eq_model c gid p loc model
+
+theorem psetGen_eq_model (c : PConf) (gid p : Nat) (a : PArg) (loc model : Option Nat) :
+    psetGen c gid p a loc model = C11.pset c gid p a loc model :=
+  C11.psetWith_eq passesSetGen coerceGen passesSetGen_eq_model coerceGen_eq_model c gid p a loc model
+
+end RtcVerif.Gen
+"""
+
+
+def gen_pi_param(c):
+    """(re)generate lean/RtcVerif/Gen/PiParam.lean; returns the extra obligation spec for c.prove"""
+    gdir = os.path.join(LEAN_DIR, "RtcVerif", "Gen")
+    os.makedirs(gdir, exist_ok=True)
+    path = os.path.join(gdir, "PiParam.lean")
+    try:
+        r = translate_param()
+    except TranslationError as e:
+        c.broken.append(("translator: ParameterConfig.get / set", str(e)))
+        return []
+    except Exception as e:
+        c.broken.append(("translator: ParameterConfig.get / set", "%s: %s" % (type(e).__name__, e)))
+        return []
+    text = PARAM_TMPL % r
+    old = open(path).read() if os.path.exists(path) else None
+    if old != text:
+        tmp = path + ".tmp%d" % os.getpid()
+        with open(tmp, "w") as f:
+            f.write(text)
+        os.replace(tmp, path)
+    return [("RtcVerif.Gen.PiParam", "RtcVerif.Gen",
+             ["passesGetGen_eq_model", "passesSetGen_eq_model", "coerceGen_eq_model", "pgetGen_eq_model", "psetGen_eq_model"])]
